@@ -11,16 +11,16 @@ REQUIRED = ["Moon.geocentric_ecliptical_pos", "Moon.apparent_ecliptical_pos", "M
             "Moon.moon_phase", "Moon.moon_perigee_apogee", "Moon.moon_passage_nodes",
             "Moon.moon_maximum_declination", "Epoch.get_doy", "Epoch.is_leap", "Epoch.get_date"]
 # finder closed forms (one proof file per finder/target, written by coq/proofs/C15/mkmoon.py and checked in)
-FINDER_TARGETS_QUICK = ["moon_maximum_declination_northern", "moon_maximum_declination_southern",
-                        "moon_passage_nodes_ascending", "moon_passage_nodes_descending",
-                        "moon_perigee_apogee_apogee", "moon_perigee_apogee_perigee"]
-FINDER_TARGETS_THOROUGH = ["moon_phase_first", "moon_phase_full", "moon_phase_last", "moon_phase_new"]
+FINDER_TARGETS_QUICK = ["moon_passage_nodes_ascending", "moon_passage_nodes_descending", "moon_perigee_apogee_apogee"]
+# 5-7 min and 6-8 GB each: compiled in the thorough tier only (statements T15_* in C15_heavy.v, not in THEOREMS)
+FINDER_TARGETS_THOROUGH = ["moon_perigee_apogee_perigee", "moon_maximum_declination_northern",
+                           "moon_maximum_declination_southern"]
 FINDER_NAMES = ["moon_perigee_apogee", "moon_passage_nodes", "moon_maximum_declination", "moon_phase"]
 THEOREMS = (["C15_angle_reduction", "C15_jde2000", "C15_mean_node", "C15_mean_perigee", "C15_node_rate", "C15_perigee_rate",
              "C15_illuminated_fraction", "C15_finder_index", "C15_finder_spacing"]
             + ["C15_" + t for t in FINDER_TARGETS_QUICK] + ["C15_%s_refusals" % f for f in FINDER_NAMES]
             + ["C15_finder_timing"])
-PROOF_TIMEOUT = {"quick": 2400, "thorough": 3300}
+PROOF_TIMEOUT = {"quick": 1500, "thorough": 3300}
 EXHAUSTIVE = False
 MANIFEST = {
     "category": "proof",
@@ -54,7 +54,8 @@ CLAUSES = {
     "finders: k from the rounded fractional year is non-decreasing and takes every value": "proved [spec]",
     "results strictly increasing in k, consecutive results one mean month +-(2C+D) apart when 2C+D < B": "proved [spec]",
     "moon_phase closed form (4 targets)": "unproved (searched + bit-exact correspondence): symbolic evaluation of one target exceeds 40 min / 6 GB (18 reduced angles, 45 terms); its refusals are proved",
-    "finder closed forms on the regenerated code (perigee, apogee, ascending/descending node passages, northern/southern maximum declinations): index k = round((year - y0) rate, 0) + target offset from the fractional year, result Epoch(mean(k) + periodic terms) [+ Angle(parallax) / Angle(declination)], every coefficient": "proved [ideal; Epoch.get_date/is_leap/get_doy values, Epoch(x) and Angle(0,0,p) as hypotheses]",
+    "finder closed forms: perigee, northern / southern maximum declination (T15_* in C15_heavy.v)": "proved in the thorough tier [ideal; same hypotheses; 5-7 min and 6-8 GB each, therefore not compiled in quick and not listed in THEOREMS]",
+    "finder closed forms on the regenerated code (ascending/descending node passages, apogee; quick tier): index k = round((year - y0) rate, 0) + target offset from the fractional year, result Epoch(mean(k) + periodic terms) [+ Angle(parallax) / Angle(declination)], every coefficient": "proved [ideal; Epoch.get_date/is_leap/get_doy values, Epoch(x) and Angle(0,0,p) as hypotheses]",
     "deviation |result - (J0 + B k)| <= C on -41 <= T <= 21 with 2C < B (C = 1.28 / 1.96 / 4.20 / 2.16 d nodes / apogee / perigee / declination) => consecutive results strictly ordered, B +- 2C apart, never backwards": "proved [ideal + spec: interval arithmetic on the proved coefficients, C15_finder_timing]",
     "results within 1.6 months of the query": "refuted on the unchanged tree for late years (known finding query-distance-1.6-months: moon_phase(Epoch(2600,1,12),'last') is 1.604 months later; up to 1.93 at year 4000); calibrated gross bound 2.0 months searched (key query-distance-gross)",
     "finder instants agree with the position theory (0.06 deg / 0.25 d / 0.02 deg / 0.25 d, 0.15 deg)": "unproved (searched at every distinct event of the sample years)",
@@ -68,10 +69,11 @@ PROOF_FILES = ["C15_angle.v", "C15_tac.v", "C15_j2000.v", "C15_nodes.v", "C15_il
 def proof_files(tier):
     fs = (list(PROOF_FILES) + ["C15_tac2.v", "C15_fdefs.v"]
           + ["C15_f_%s.v" % t for t in FINDER_TARGETS_QUICK] + ["C15_e_%s.v" % f for f in FINDER_NAMES])
-    # Moon.moon_phase (4 targets, 18 reduced angles, ~45 terms): mkmoon.py writes the closed-form files too, but one
-    # target needs > 40 min and 6 GB with the present evaluation tactic (cost is quadratic in the length of the
-    # function body); they are not part of the check (FINDER_TARGETS_THOROUGH is informational)
-    return fs + ["C15.v"]
+    if tier != "quick":
+        fs += ["C15_f_%s.v" % t for t in FINDER_TARGETS_THOROUGH] + ["C15_heavy.v"]
+    # Moon.moon_phase (4 targets, 18 reduced angles, ~45 terms) is not covered: one target needs > 40 min and 6 GB
+    # with the present evaluation tactic (cost quadratic in the length of the function body)
+    return fs + ["C15_s1.v", "C15_s2.v", "C15.v"]
 
 
 # ----------------------------------------------------------------------------------------------
